@@ -55,27 +55,41 @@ var invalidClasses = []invalidClass{
 	{"same-http-and-grpc-port", func(rng *rand.Rand, s *settingSet, i int) string {
 		delListeners(s)
 		p := port(rng)
-		h := pick(rng, "", "127.0.0.1", "0.0.0.0", "localhost")
+		// Host spellings of the two listeners: identical, or different spellings
+		// that certainly overlap (wildcard vs specific, localhost vs 127.0.0.1).
+		pairs := [][2]string{{"", "localhost"}, {"", ""}, {"0.0.0.0", "127.0.0.1"}, {"127.0.0.1", "127.0.0.1"},
+			{"127.0.0.1", ""}, {"localhost", "127.0.0.1"}, {"0.0.0.0", ""}, {"localhost", "localhost"}}
+		hp := pairs[(i/4)%len(pairs)]
+		hosts := "same-host"
+		if hp[0] != hp[1] {
+			hosts = "overlapping-hosts"
+		}
 		switch i % 4 {
 		case 0:
-			s.set("http_address", fmt.Sprintf("%s:%d", h, p))
-			s.set("grpc_address", fmt.Sprintf("%s:%d", h, p))
-			return "address+address"
-		case 1:
-			if h != "" {
-				s.set("host", h)
+			s.set("http_address", fmt.Sprintf("%s:%d", hp[0], p))
+			s.set("grpc_address", fmt.Sprintf("%s:%d", hp[1], p))
+			return "address+address/" + hosts
+		case 1: // both deprecated: they share the host by construction
+			if hp[0] != "" {
+				s.set("host", hp[0])
 			}
 			s.set("port", strconv.Itoa(p))
 			s.set("grpc_port", strconv.Itoa(p))
-			return "port+grpc_port"
-		case 2:
-			s.set("http_address", fmt.Sprintf(":%d", p))
+			return "port+grpc_port/same-host"
+		case 2: // address for HTTP, deprecated host + grpc_port for gRPC
+			s.set("http_address", fmt.Sprintf("%s:%d", hp[0], p))
+			if hp[1] != "" {
+				s.set("host", hp[1])
+			}
 			s.set("grpc_port", strconv.Itoa(p))
-			return "address+grpc_port"
-		default:
+			return "address+grpc_port/" + hosts
+		default: // deprecated host + port for HTTP, address for gRPC
+			if hp[0] != "" {
+				s.set("host", hp[0])
+			}
 			s.set("port", strconv.Itoa(p))
-			s.set("grpc_address", fmt.Sprintf(":%d", p))
-			return "port+address"
+			s.set("grpc_address", fmt.Sprintf("%s:%d", hp[1], p))
+			return "port+address/" + hosts
 		}
 	}},
 	{"tls-cert-without-key", func(rng *rand.Rand, s *settingSet, i int) string {
